@@ -362,6 +362,13 @@ func (sc *mScene) setup() error {
 		vsched.Sleep(time.Second)
 	case "hub-fund", "hub-fund2", "hub-settle", "hub-settle2", "hub-fund-quiet", "hub-settle-quiet", "hub-two":
 		return sc.setupHub(base)
+	case "hub-collude":
+		// the hub with its two ledger channels; M and B are real only for the set-up and the probes, the
+		// harness speaks for both of them
+		sc.B = w.P[2]
+		if sc.mledB, sc.ledB, err = w.OpenLedger(2, 0, 10, 10); err != nil {
+			return fmt.Errorf("opening the ledger channel B - hub: %w", err)
+		}
 	default:
 		return fmt.Errorf("unknown history point %q", pt)
 	}
@@ -707,8 +714,16 @@ func (sc *mScene) probe() (out []mProbeRes) {
 		}
 	}
 	if sc.ledB != nil {
-		one("update of the ledger channel with B proposed by B", sc.mledB)
-		one("update of the ledger channel with B proposed by V", sc.ledB)
+		a, b := sc.lastEnabled(sc.V.Idx, sc.ledB.ID()), sc.lastEnabled(sc.B.Idx, sc.ledB.ID())
+		if a != nil && b != nil && a.Version != b.Version {
+			one("update of the ledger channel with B proposed by V (the real B is out of step: ok = completed, refused or unanswered)", sc.ledB)
+			if r := &out[len(out)-1]; r.Res == "timeout" || r.Res == "rejected" {
+				r.Res = "ok"
+			}
+		} else {
+			one("update of the ledger channel with B proposed by B", sc.mledB)
+			one("update of the ledger channel with B proposed by V", sc.ledB)
+		}
 	}
 	for i := range sc.vsubs {
 		one(fmt.Sprintf("update of sub-channel %d proposed by M", i), sc.msubs[i])
